@@ -410,12 +410,15 @@ def check_C09(tier, seed):
         a = vlib.sim_forest(wd, "v2", 3, rdepth, seed, num=200, limit=2000, max_tracks=6, with_tracks=True,
                             crate_ops="none", pre="rich", track_ops="mem", opnames=("a",))
         b = vlib.sim_forest(wd, "v2", 7, rdepth, seed + 1, num=200, limit=2000, opnames=("a", "b", "c"))
-        mc_stats.extend([a[0], b[0]])
+        # (entries also disappear when their TRACK is removed from the database, or their crate: all operations mixed)
+        c = vlib.sim_forest(wd, "v2", 6, rdepth, seed + 2, num=200, limit=2000, max_tracks=12, with_tracks=True,
+                            crate_ops="basic", pre="rich", track_ops="all", opnames=("a", "b"))
+        mc_stats.extend([a[0], b[0], c[0]])
         for s in vlib.V2:
             r = random.Random(seed * 15485863 + vlib.ALL.index(s))
             # on two schemas the stored rows are logged too and must be the rows the storage-layer model predicts
             rows = s in ("2.18.0", "2.21.2") or tier != "quick"
-            for st, sc in (a, b):
+            for st, sc in (a, b, c):
                 ws.append(Workload(s, r.sample(sc, min(nr, len(sc))), ["a", "b", "c", "d"], tag="r", origin=st["instance"],
                                    flags={"raw": True} if rows else None, also=vlib.v2store_also(s) if rows else ()))
         # the storage-layer model itself: chain invariants, refinement into Library, atomicity under Fail(k)
